@@ -20,12 +20,14 @@ RULE = (
     'with a "tie" mode that builds successive slopes exactly equal to the tolerance and its floating-point '
     'neighbours, and an "exact-tie" stream of dyadic series (float / int / datetime coordinates) whose slopes are '
     'exactly +-atol, 0, atol/2 or 2..3 atol with no rounding anywhere (the oracle decides exact ties: not a split); '
-    'about half of the series carry 0-3 further per-point coordinates (float / int / datetime / string), 0-2 masks, '
+    'the dimension coordinate and the further numeric coordinates are stored in 64 or 32 bits (float32 / int32: differences, '
+    'min / max and the successor are taken in the coordinate\'s own precision); about half of the series carry 0-3 further per-point coordinates (float / int / datetime / string), 0-2 masks, '
     'variances on the data and an unrelated 0-d coordinate (the further coordinates are random, descending, constant, '
     'few-valued with repeated extremes, noisy or zig-zag along the series, i.e. not ascending inside a plateau; '
     'collapse_plateaus is run with coord= the dimension coordinate and each of them), and every bin is compared in full (value, variance, every '
     'coordinate, every mask) with the input slice; min_n_points 1..n (+ n+1), int or Variable; a malformed stream of unsorted coordinates. In-phase: '
-    'frequencies of either sign, 0, multiples / divisors n and n*(1 +- rtol) with exact ties, reference of either sign and 0. '
+    'data and reference dtype independent in {float64, float32, int64, int32} (both integer included, inexact integer '
+    'multiples / divisors inside and outside rtol), frequencies of either sign, 0, multiples / divisors n and n*(1 +- rtol) with exact ties, reference of either sign and 0. '
     'A case is distinct by its full input bit pattern; it is non-trivial when the slope list contains both a slope within '
     'and a slope above the tolerance (plateaus) or both a kept and a dropped element (in-phase).'
 )
@@ -350,16 +352,33 @@ def _masked_union(c):
     return [1 if any(m['values'][i] for m in d['masks']) else 0 for i in range(n)]
 
 
+def narrow(rng, c):
+    """store the dimension coordinate and some of the further coordinates in 32 bits (float32 / int32)"""
+    if c['kind'] == 'float' and rng.random() < 0.3 and c.get('ydtype', 'float64') == 'float64':
+        # (integer data over a float32 coordinate would make the slopes themselves single precision: out of scope)
+        c['xdtype'] = 'float32'
+        c['x'] = [float(np.float32(v)) for v in c['x']]
+    elif c['kind'] == 'int' and rng.random() < 0.3 and all(abs(int(v)) < 2**31 - 1 for v in c['x']):
+        c['xdtype'] = 'int32'
+    for e in (c.get('deco') or {}).get('extras', []):
+        if e['kind'] == 'float' and rng.random() < 0.4:
+            e['kind'] = 'float32'
+            e['values'] = [bits(float(np.float32(unbits(h)))) for h in e['values']]
+        elif e['kind'] == 'int' and rng.random() < 0.4:
+            e['kind'] = 'int32'
+    return c
+
+
 def make_da(c):
     import scipp as sc
 
     y = np.array(c['y'], dtype=c.get('ydtype', 'float64'))
     data = sc.array(dims=['time'], values=y, unit='Hz')
     if c['kind'] == 'float':
-        coord = sc.array(dims=['time'], values=np.array(c['x'], dtype='float64'), unit='s')
+        coord = sc.array(dims=['time'], values=np.array(c['x'], dtype=c.get('xdtype', 'float64')), unit='s')
         aunit = 'Hz/s'
     elif c['kind'] == 'int':
-        coord = sc.array(dims=['time'], values=np.array(c['x'], dtype='int64'), unit=c['unit'])
+        coord = sc.array(dims=['time'], values=np.array(c['x'], dtype=c.get('xdtype', 'int64')), unit=c['unit'])
         aunit = f"Hz/{c['unit']}"
     else:
         coord = sc.epoch(unit=c['unit']) + sc.array(dims=['time'], values=np.array(c['x'], dtype='int64'), unit=c['unit'])
@@ -370,10 +389,11 @@ def make_da(c):
     da = sc.DataArray(data, coords={'time': coord})
     if d:
         for e in d['extras']:
-            if e['kind'] == 'float':
-                v = sc.array(dims=['time'], values=np.array([unbits(h) for h in e['values']]), unit='deg')
-            elif e['kind'] == 'int':
-                v = sc.array(dims=['time'], values=np.array(e['values'], dtype='int64'), unit=None)
+            if e['kind'] in ('float', 'float32'):
+                v = sc.array(dims=['time'], values=np.array([unbits(h) for h in e['values']],
+                                                            dtype='float32' if e['kind'] == 'float32' else 'float64'), unit='deg')
+            elif e['kind'] in ('int', 'int32'):
+                v = sc.array(dims=['time'], values=np.array(e['values'], dtype='int32' if e['kind'] == 'int32' else 'int64'), unit=None)
             elif e['kind'] == 'datetime':
                 v = sc.epoch(unit='us') + sc.array(dims=['time'], values=np.array(e['values'], dtype='int64'), unit='us')
             else:
@@ -437,9 +457,12 @@ def run_impl(c):
         try:
             col = F.collapse_plateaus(r, coord=e['name'])
             edges = col.coords[e['name']]
-            if e['kind'] == 'float':
-                other[e['name']] = [(bits(a + 0.0), bits(b)) for a, b in edges.values.reshape(-1, 2)]
-            elif e['kind'] in ('int', 'datetime'):
+            if str(edges.dtype) != {'float': 'float64', 'float32': 'float32', 'int': 'int64', 'int32': 'int32',
+                                    'datetime': 'datetime64'}.get(e['kind'], str(edges.dtype)):
+                other[e['name']] = ('dtype', str(edges.dtype))
+            elif e['kind'] in ('float', 'float32'):
+                other[e['name']] = [(bits(float(a) + 0.0), bits(float(b))) for a, b in edges.values.reshape(-1, 2)]
+            elif e['kind'] in ('int', 'int32', 'datetime'):
                 other[e['name']] = [(int(a), int(b)) for a, b in edges.values.astype('int64').reshape(-1, 2)]
             else:
                 other[e['name']] = 'returned'
@@ -453,6 +476,9 @@ def run_impl(c):
 def line_for(c, op='c19.plateaus'):
     k = 'f' if c['kind'] == 'float' else 'i'
     xs = [bits(v) for v in c['x']] if k == 'f' else [str(int(v)) for v in c['x']]
+    if c.get('xdtype') == 'float32':
+        k = 'g'
+        xs = [f32bits(v) for v in c['x']]
     ys = [bits(v) for v in c['y']]
     n = len(c['y'])
     if op == 'c19.plateaus':
@@ -462,9 +488,14 @@ def line_for(c, op='c19.plateaus'):
         return f"c19.contents {k} {c['minn']} {bits(c['atol'])} {n} " + ' '.join(xs) + ' ' + ' '.join(ys) + ' ' + ' '.join(toks)
     elif op.startswith('c19.interval:'):
         e = next(x for x in c['deco']['extras'] if x['name'] == op.split(':', 1)[1])
-        es = e['values'] if e['kind'] == 'float' else [str(int(v)) for v in e['values']]
+        if e['kind'] == 'float':
+            ek, es = 'f', e['values']
+        elif e['kind'] == 'float32':
+            ek, es = 'g', [f32bits(unbits(h)) for h in e['values']]
+        else:
+            ek, es = 'i', [str(int(v)) for v in e['values']]
         return (f"c19.interval {k} {c['minn']} {bits(c['atol'])} {n} " + ' '.join(xs) + ' ' + ' '.join(ys) + ' '
-                + ('f' if e['kind'] == 'float' else 'i') + ' ' + ' '.join(es))
+                + ek + ' ' + ' '.join(es))
     elif op == 'c19.collapsem':
         d = c.get('deco') or {}
         vs = d.get('variances') or [bits(0.0)] * n
@@ -521,7 +552,7 @@ def model_result(c, out, out_contents=None, out_col=None, out_int=None):
         o = (out_int or {}).get(e['name'], 'missing')
         if not o.startswith('ok'):
             other[e['name']] = 'bad:' + o[:60]
-        elif e['kind'] == 'float':
+        elif e['kind'] in ('float', 'float32'):
             other[e['name']] = [(bits(unbits(t.split(':')[0]) + 0.0), t.split(':')[1]) for t in o.split()[1:]]
         else:
             other[e['name']] = [(int(t.split(':')[0]), int(t.split(':')[1])) for t in o.split()[1:]]
@@ -575,22 +606,75 @@ def gen_inphase(rng):
         if rng.random() < 0.15 and math.isfinite(v):
             v = float(np.nextafter(v, rng.choice([-math.inf, math.inf])))
         xs.append(float(v))
-    intdata = rng.random() < 0.1
-    if intdata:
-        xs = [float(round(v)) for v in xs]
-    return dict(ref=float(ref), rtol=float(rtol), xs=xs, intdata=intdata)
+    # dtype of the data and of the reference are independent
+    xdtype = rng.choice(IP_DTYPES)
+    rdtype = rng.choice(IP_DTYPES)
+    if rng.random() < 0.3:
+        # integer-valued series: inexact multiples / divisors of the reference inside and outside rtol
+        ref = float(rng.choice([14, 14, 10, 60, 3, -14, 7, 100]))
+        rtol = rng.choice([0.1, 0.05, 0.25, 0.01, 0.2])
+        xs = []
+        for _ in range(n):
+            k = rng.choice([1, 2, 3, 4, 5, 8])
+            base = ref * k if rng.random() < 0.7 else float(int(ref / k))
+            xs.append(float(base + rng.choice([0, 0, 1, -1, 2, -2, 3, -3, 5])) * rng.choice([1, 1, 1, -1]))
+        if rng.random() < 0.5:
+            xdtype = rng.choice(['int64', 'int32', 'int64'])
+            rdtype = rng.choice(['int64', 'int32', 'int64', 'float64'])
+    return _cast_inphase(dict(ref=float(ref), rtol=float(rtol), xs=xs, xdtype=xdtype, rdtype=rdtype))
+
+
+IP_DTYPES = ['float64', 'float64', 'float32', 'int64', 'int32']
+
+
+def _cast_value(v, dtype):
+    if dtype in ('int64', 'int32'):
+        if not math.isfinite(v):
+            return 0.0
+        return float(max(-2**30, min(2**30, round(v))))
+    if dtype == 'float32':
+        return float(np.float32(v))
+    return float(v)
+
+
+def _cast_inphase(c):
+    """store the numbers the typed scipp variables will hold (as python floats: all are exact)"""
+    c['xs'] = [_cast_value(v, c['xdtype']) for v in c['xs']]
+    c['ref'] = _cast_value(c['ref'], c['rdtype'])
+    return c
+
+
+def _quot_is_f32(c):
+    """dtype of `x / ref` in scipp: single precision iff no operand is float64 / both-integer"""
+    xd, rd = c.get('xdtype', 'float64'), c.get('rdtype', 'float64')
+    if xd == 'float32':
+        return rd != 'float64'
+    return xd in ('int64', 'int32') and rd == 'float32'
+
+
+def f32bits(x: float) -> str:
+    return struct.pack('>f', float(x)).hex()
+
+
+def inphase_line(c):
+    if _quot_is_f32(c):
+        return 'c19.inphase32 ' + f32bits(c['ref']) + ' ' + bits(c['rtol']) + ' ' + ' '.join(f32bits(v) for v in c['xs'])
+    return 'c19.inphase ' + bits(c['ref']) + ' ' + bits(c['rtol']) + ' ' + ' '.join(bits(v) for v in c['xs'])
 
 
 def impl_inphase(c):
     import scipp as sc
     from scippneutron.chopper import filtering as F
 
-    vals = np.array(c['xs'], dtype='int64' if c['intdata'] else 'float64')
+    xd = c.get('xdtype', 'int64' if c.get('intdata') else 'float64')
+    vals = np.array(c['xs'], dtype=xd)
     idx = sc.arange('time', len(vals), unit=None)
     da = sc.DataArray(sc.array(dims=['time'], values=vals, unit='Hz'), coords={'time': idx})
     try:
         with np.errstate(all='ignore'):
-            r = F.filter_in_phase(da, reference=sc.scalar(c['ref'], unit='Hz'), rtol=sc.scalar(c['rtol']))
+            rd = c.get('rdtype', 'float64')
+            ref = sc.scalar(int(c['ref']) if rd.startswith('int') else c['ref'], unit='Hz', dtype=rd)
+            r = F.filter_in_phase(da, reference=ref, rtol=sc.scalar(c['rtol']))
     except Exception as e:  # noqa: BLE001
         return _err(e)
     kept = [int(v) for v in r.coords['time'].values]
@@ -647,6 +731,9 @@ def correspond(ctx):
     for c in cases:
         if 'deco' not in c and c['mode'] != 'fixed' and rng.random() < 0.5:
             decorate(rng, c)
+    for c in cases:
+        if c['mode'] not in ('fixed', 'unsorted') and 'xdtype' not in c:
+            narrow(rng, c)
     cases.append(decorate(rng, dict(kind='datetime', unit='ms', x=[0, 2, 4, 6, 8, 10], y=[0.0, 0.1, 0.0, 9.0, 9.1, 9.0], atol=1.0, minn=2,
                                     minn_var=False, mode='fixed', ydtype='float64')))
     lines = [line_for(c) for c in cases]
@@ -688,6 +775,12 @@ def correspond(ctx):
             ctx.count('size:' + ('2-12' if n <= 12 else '13-80' if n <= 80 else '81-500'))
             if impl[0] == 'ok':
                 ctx.count('bins:' + ('0' if nb == 0 else '1' if nb == 1 else '2-5' if nb <= 5 else '6+'))
+            if c.get('xdtype'):
+                ctx.count('xdtype:' + c['xdtype'])
+            if c.get('xdtype') == 'float32' and {impl[0], model[0]} == {'ok', 'err:runtime'} and _guard_at_boundary(
+                    c, impl[1] if impl[0] == 'ok' else model[1]):
+                ctx.count('float32-guard-at-threshold:not-compared')
+                continue
             if impl != model:
                 ctx.disagree({'op': 'plateaus', 'case': _encode_case(c)}, _short(impl), _short(model),
                              'find_plateaus/collapse_plateaus differ from the model')
@@ -706,7 +799,7 @@ def correspond(ctx):
     # in-phase
     pcs = [j['case'] for j in _corpus(ctx) if j.get('op') == 'inphase']
     pcs += [gen_inphase(rng) for _ in range(ctx.n(1500, 100000))]
-    plines = ['c19.inphase ' + bits(c['ref']) + ' ' + bits(c['rtol']) + ' ' + ' '.join(bits(v) for v in c['xs']) for c in pcs]
+    plines = [inphase_line(c) for c in pcs]
     pouts = _drive(ctx, plines, 20000)
     for c, out in zip(pcs, pouts):
         impl = impl_inphase(c)
@@ -716,6 +809,7 @@ def correspond(ctx):
         ctx.case(('inphase', bits(c['ref']), bits(c['rtol']), tuple(bits(v) for v in c['xs'])), 0 < k < len(c['xs']),
                  sample={'op': 'inphase', 'ref': c['ref'], 'rtol': c['rtol'], 'n': len(c['xs']), 'kept': k})
         ctx.count('inphase:' + ('all' if k == len(c['xs']) else 'none' if k == 0 else 'some' if k > 0 else 'error'))
+        ctx.count(f"inphase-dtype:{c.get('xdtype', 'float64')}/{c.get('rdtype', 'float64')}")
         if impl != model:
             ctx.disagree({'op': 'inphase', 'case': c}, impl, model, 'filter_in_phase keeps other elements than the model')
     # rint ties
@@ -730,6 +824,23 @@ def correspond(ctx):
         ctx.case(('rint', bits(v)), False)
         if bits(a) != b:
             ctx.disagree({'op': 'rint', 'x': v}, bits(a), b, 'sc.round differs from round-half-even model')
+
+
+def _guard_at_boundary(c, bins):
+    """float32 dimension coordinate: scipp's single-precision mean of the steps is only mirrored to ~1e-7, so a
+    RuntimeError decision is compared only when (max - min) / mean step is not within 1e-5 of 2 atol"""
+    for bx, by in bins:
+        if len(by) < 2:
+            continue
+        ys = [Fraction(unbits(h)) for h in by]
+        xs_ = [Fraction(unbits(h)) for h in bx]
+        step = (xs_[-1] - xs_[0]) / (len(xs_) - 1)
+        if step == 0:
+            continue
+        ratio = (max(ys) - min(ys)) / step / (2 * Fraction(c['atol']))
+        if abs(ratio - 1) < Fraction(1, 10**5):
+            return True
+    return False
 
 
 def _drive(ctx, lines, chunk=4000):
@@ -767,7 +878,8 @@ def _slope_flags(c, with_ties=False):
     with_ties=True also returns the list of positions decided that way."""
     x, y = c['x'], c['y']
     atol = Fraction(c['atol'])
-    band = Fraction(1, 2**48)
+    f32 = c.get('xdtype') == 'float32'     # coordinate differences are rounded to binary32 by the code
+    band = Fraction(1, 2**20) if f32 else Fraction(1, 2**48)
     flags = []
     ties = []
     for i in range(len(y) - 1):
@@ -781,7 +893,8 @@ def _slope_flags(c, with_ties=False):
             flags.append(True)
         elif s < atol * (1 - band):
             flags.append(False)
-        elif s == atol and _exactly_representable(dx) and _exactly_representable(dy):
+        elif s == atol and _exactly_representable(dx) and _exactly_representable(dy) and (
+                not f32 or Fraction(float(np.float32(float(dx)))) == dx):
             flags.append(False)
             ties.append(i)
         else:
@@ -910,13 +1023,16 @@ def check_plateaus_property(c, impl):
         if len(got) != len(ivs):
             probs.append(('C19:collapse-count', f"collapse_plateaus(coord={e['name']!r}) does not return one interval per plateau"))
             continue
-        if e['kind'] == 'float':
+        if e['kind'] in ('float', 'float32'):
             vals = [Fraction(unbits(h)) for h in e['values']]
         else:
             vals = [Fraction(int(v)) for v in e['values']]
         for (i, j), (lo, hi) in zip(ivs, got):
             pts = vals[i:j + 1]
-            if e['kind'] == 'float':
+            if e['kind'] == 'float32':      # the successor in the coordinate's OWN precision
+                lo_v, hi_v = Fraction(unbits(lo)), Fraction(unbits(hi))
+                nxt = Fraction(float(np.nextafter(np.float32(float(max(pts))), np.float32(np.inf))))
+            elif e['kind'] == 'float':
                 lo_v, hi_v = Fraction(unbits(lo)), Fraction(unbits(hi))
                 nxt = Fraction(float(np.nextafter(float(max(pts)), math.inf)))
             else:
@@ -957,7 +1073,8 @@ def _inphase_expected(c):
             ds.append((dist(1 / q), abs(1 / q)))
         verdicts = []
         for d, mag in ds:
-            band = Fraction(1, 2**49) * max(mag, 1) + Fraction(1, 2**49) * rtol
+            prec = Fraction(1, 2**20) if _quot_is_f32(c) else Fraction(1, 2**49)
+            band = prec * max(mag, 1) + prec * rtol
             if d < rtol - band:
                 verdicts.append(True)
             elif d >= rtol + band:
@@ -984,6 +1101,8 @@ def oracle(ctx, deep):
                 continue
             if 'deco' not in c and rng.random() < 0.6:
                 decorate(rng, c)
+            if 'xdtype' not in c and c['mode'] != 'fixed':
+                narrow(rng, c)
             impl = run_impl(c)
             ctx.case(('oracle-pl', c['kind'], c['minn'], bits(c['atol']), tuple(map(str, c['x'])), tuple(bits(v) for v in c['y']),
                       json.dumps(c.get('deco'), sort_keys=True)), len(c['y']) >= 3)
